@@ -3,7 +3,7 @@ generic fault for other exceptions, nothing leaked, documented HTTP status."""
 from symx.api import harness
 from harness import pipeline as P, pipeline_oracles as O
 
-PARAMS = [(proto, tr) for proto in ('json', 'xml', 'soap11', 'http-json', 'http-soap11', 'soap11-json')
+PARAMS = [(proto, tr) for proto in ('json', 'xml', 'soap11', 'http-json', 'http-soap11', 'soap11-json', 'json-jsonp')
           for tr in ('server', 'wsgi-chunked') if not (P.in_of(proto) == 'http' and tr == 'server')]
 
 
